@@ -79,6 +79,12 @@ def maskSet : List Int → List Int → List Int → List Int
   | x :: xs, m :: ms, y :: ys => (if m != 0 then y else x) :: maskSet xs ms ys
   | xs, _, _ => xs
 
+/-- `a > b` elementwise, and `x[mask]`: the entries of `x` at which the mask is set -/
+def maskGT (a b : List Int) : List Int := List.zipWith (fun x y => if y < x then (1 : Int) else 0) a b
+def maskGet : List Int → List Int → List Int
+  | x :: xs, m :: ms => if m != 0 then x :: maskGet xs ms else maskGet xs ms
+  | _, _ => []
+
 /-- `np.arange(len(mask))[mask]`: the positions at which a 0/1 mask is set -/
 def whereNZAux : Nat → List Int → List Int
   | _, [] => []
